@@ -277,7 +277,7 @@ def run(rep, tier_, rng):
     for c in calls.values():
         regimes[c["regime"]] = regimes.get(c["regime"], 0) + 1
     run_and_report(rep, insts, calls, tag="C34_%s" % tier_, params={"sentence_timeout": 60, "single_timeout": 80},
-                   budget=max(30, (135 if q else 1100) - tgen),
+                   budget=max(30, (115 if q else 1100) - tgen), jobs=10,
                    rule="each evaluation = one ODE problem (y'=ay; harmonic oscillator; y'=-y^2; y'=1+y^2; cosh/sinh system; y'=-2xy; y'=P(x); "
                         "triangular system; decoupled pair) with rational parameters solved by odefun of the current /repo code at p in "
                         "{30,53,100(,200)} (default tol, 20% with an explicit tol), evaluated at ~8 dyadic points (+ up to 4 segment boundaries) "
